@@ -14,7 +14,7 @@ import random
 
 from . import tm
 from .driver import Accounting, Suspend, Task
-from .graph import build_paths
+from .graph import build_paths, stream_replays
 from .instruments import Cancelled, InjectedError
 from .report import Verdict
 from .tlc import MachineryError, read_ndjson, run_tlc
@@ -261,16 +261,16 @@ def check(prop, tier, seed, into=None):
             label_counts[e_["a"][0]] = label_counts.get(e_["a"][0], 0) + 1
         paths = build_paths(edges, lambda f: f["h"] == 0 and f["m"] == 0 and not f["o"] and all(x == cfg[3] for x in f["l"]))
         tot["paths"] += len(paths)
+        cap = 800 if tier == "mini" else 2500 if tier == "quick" else 20000
+        jobs = [(cfg, p) for p in paths]
+        del edges, paths
         with mp.Pool(min(16, os.cpu_count() or 4)) as pool:
-            results = pool.map(replay_path, [(cfg, p) for p in paths], chunksize=max(1, len(paths) // 128))
-        drifted = [r for r in results if r["drift"]]
-        clean = [r for r in results if not r["drift"]]
+            drifted, sample, bad, _n = stream_replays(pool, replay_path, jobs, rnd, cap)
+        del jobs
         tot["drift"] += len(drifted)
-        cap = 800 if tier == "mini" else 2500 if tier == "quick" else 40000
-        alltraces += drifted + (clean if len(clean) <= cap else rnd.sample(clean, cap))
-        for r in results:
-            if not r["acct_ok"]:
-                v.violation("C11/lru_cache/foreign-suspension", {"engine": "lruconc", "path": r["path"], "cfg": r["cfg"]})
+        alltraces += drifted + sample
+        for b in bad:
+            v.violation("C11/lru_cache/foreign-suspension", {"engine": "lruconc", **b})
     nrand = 300 if tier == "mini" else 1500 if tier == "quick" else 20000
     jobs = [(seed * 104729 + i, rnd.choice([2, 3, 4, 5]), rnd.choice([1, 2, 3, 4]), rnd.choice([-1, 0, 1, 2, 3]), rnd.choice([1, 2, 3]))
             for i in range(nrand)]
